@@ -130,6 +130,29 @@ pub mod point {
 }
 
 pub mod buffer {
+    pub mod string_buffer {
+        pub struct StringBuffer(pub Vec<Vec<char>>);
+        impl From<&str> for StringBuffer {
+            /// C06.P5: a tab stop makes the columns depend on the absolute column
+            fn from(s: &str) -> Self {
+                let mut rows = vec![];
+                for line in s.lines() {
+                    let mut row: Vec<char> = vec![];
+                    for ch in line.chars() {
+                        if ch == '\t' {
+                            while row.len() % 4 != 0 {
+                                row.push(' ');
+                            }
+                            continue;
+                        }
+                        row.push(ch);
+                    }
+                    rows.push(row);
+                }
+                StringBuffer(rows)
+            }
+        }
+    }
     pub mod cell_buffer {
         pub struct Frag(pub i32);
         impl Frag {
